@@ -113,6 +113,10 @@ type Result struct {
 	OrderHash string
 	Dirs      []string
 	Hung      bool
+	// Phase guards Returned: observers that audit the target "while the copy is running" hold the
+	// read lock; Run takes the write lock to mark the copy as returned before it closes the client.
+	Phase    sync.RWMutex
+	Returned bool
 }
 
 // Cleanup releases servers and directories.
@@ -337,8 +341,11 @@ func Run(c Case, o RunOpts) *Result {
 		ctx, cancel = context.WithTimeout(context.Background(), 60*time.Second)
 		defer cancel()
 	}
-	procsMu.Lock()
-	prev := runtime.GOMAXPROCS(c.Procs)
+	prev := 0
+	if c.Procs > 0 {
+		procsMu.Lock()
+		prev = runtime.GOMAXPROCS(c.Procs)
+	}
 	done := make(chan error, 1)
 	go func() {
 		defer func() {
@@ -354,9 +361,15 @@ func Run(c Case, o RunOpts) *Result {
 		r.Hung = true
 		r.Err = fmt.Errorf("copy did not return within the watchdog")
 	}
-	runtime.GOMAXPROCS(prev)
-	procsMu.Unlock()
+	if c.Procs > 0 {
+		runtime.GOMAXPROCS(prev)
+		procsMu.Unlock()
+	}
+	r.Phase.Lock()
+	r.Returned = true
+	r.Phase.Unlock()
 	_ = rc.Close(ctx, r.Tgt.Ref(r.TgtTag))
+	r.W.WaitIdle()
 	r.Events = r.W.Log()
 	h := sha256.New()
 	for _, e := range r.Events {
